@@ -68,12 +68,14 @@ def cases(tier, seed):
         base = {"scen": scen, "level": 0, "seed": seed}
         out.append(dict(base, part="order", T=T_ORD))
         out.append(dict(base, part="reverse", dt=DTS[1], T=T_REV))
+    for scen in SYSTEMS[:1] + SYSTEMS[3:6]:
+        out.append({"scen": scen, "level": 1, "seed": seed, "part": "continue", "dt": DTS[1], "T": 0.3})
     # the same experiments with the full Newton iteration (reuse_lu_decomposition=False) instead of the default chord iteration
     for scen in SYSTEMS[:3]:
         base = {"scen": scen, "level": 1, "seed": seed, "full_newton": True}
         out.append(dict(base, part="order", T=T_ORD))
         out.append(dict(base, part="reverse", dt=DTS[0], T=T_REV))
-    order = {"order": 1, "reverse": 0, "drift": 2}
+    order = {"order": 1, "reverse": 0, "drift": 2, "continue": 0}
     out.sort(key=lambda c: (order[c["part"]], SYSTEMS.index(c["scen"]), c["level"], -c.get("dt", 0)))
     return out
 
@@ -129,6 +131,38 @@ def check(case):
         fails.append({"site": site, "msg": f"{letters}: {msg}", "data": dict(letters, **data)})
 
     try:
+        if part == "continue":
+            # the same solver object used twice: a second solve() continues the first one; both together must be the run of
+            # twice the length (solver state left behind by the first call; seeded C17-l, C19-l)
+            import cardillo.solver as S
+
+            dt = case["dt"]
+            N = int(round(case["T"] / dt))
+            sysA = _build(case)
+            with quiet():
+                so = S.Rattle(sysA, sysA.t0 + N * dt - 0.5 * dt, dt, options=integ.options(NEWTON_TOL, **_KW))
+                a = so.solve()
+                b = so.solve()
+                sysB = _build(case)
+                c = S.Rattle(sysB, sysB.t0 + 2 * N * dt - 0.5 * dt, dt, options=integ.options(NEWTON_TOL, **_KW)).solve()
+            ta, tb, tc = np.asarray(a.t, float), np.asarray(b.t, float), np.asarray(c.t, float)
+            qa, qb, qc = np.asarray(a.q, float), np.asarray(b.q, float), np.asarray(c.q, float)
+            ua, ub, uc = np.asarray(a.u, float), np.asarray(b.u, float), np.asarray(c.u, float)
+            states += len(ta) + len(tb) + len(tc)
+            transitions += 4 * N
+            evals += 3
+            if not (len(ta) == len(tb) == N + 1 and len(tc) == 2 * N + 1):
+                fail("Rattle: second solve() of one solver object has another length than the first", f"rows {len(ta)}, {len(tb)}, long run {len(tc)}")
+            else:
+                dj = max(float(np.max(np.abs(qb[0] - qa[-1]))), float(np.max(np.abs(ub[0] - ua[-1]))), float(abs(tb[0] - ta[-1])))
+                dl = max(float(np.max(np.abs(np.vstack([qa, qb[1:]]) - qc))), float(np.max(np.abs(np.vstack([ua, ub[1:]]) - uc))),
+                         float(np.max(np.abs(np.concatenate([ta, tb[1:]]) - tc))))
+                stats["max_continue_join"], stats["max_continue_vs_long"] = dj, dl
+                if dj > 1e-12:
+                    fail("Rattle: second solve() does not start from the last state of the first", f"jump {dj:.3e} in (t, q, u)", jump=dj)
+                if dl > TOL_REV:
+                    fail("Rattle: two consecutive solve() calls differ from one run of twice the length", f"max deviation {dl:.3e}", dev=dl)
+            return {"fails": fails, "nontrivial": True, "evals": evals, "states": states, "transitions": transitions, "outcome": "continue", "stats": stats}
         if part == "order":
             errs, scale = [], 1.0
             for dt in ORDER_DTS:
